@@ -163,7 +163,12 @@ def _case(res, rng, ident):
         for c in copies:
             carried0 |= tables.allele_variants(g, *c)
         spare0 = sorted(Mutation(*m) for m in g.mutations if Mutation(*m) not in carried0)
-        for m in rng.sample(spare0, min(len(spare0), rng.choice([1, 2, 3]))):
+        picks0 = rng.sample(spare0, min(len(spare0), rng.choice([1, 2, 3])))
+        # preferably also a second alternative at a site where a planted copy carries another variant
+        mates0 = [m for m in spare0 if any(o.pos == m.pos and o.op[:3] != "ins" for o in carried0) and m.op[:3] != "ins"]
+        if mates0 and rng.random() < 0.7:
+            picks0.append(rng.choice(mates0))
+        for m in picks0:
             ncov = sum(1 for c in copies if g.has_coverage(c[0], m.pos))
             k = int(round(depth * max(1, ncov) * rng.uniform(0.08, 0.48)))
             if k:
@@ -269,6 +274,18 @@ def _case(res, rng, ident):
             "min_quality": minq, "min_mapq": minmq, "min_coverage": mincov, "threshold": thr,
             "lowq_observations": n_lq, "lowq_only_variant": str(lowq_only) if lowq_only else None}
     ca, cb = cov_of(False), cov_of(True)
+    # the evidence object may have served another gene structure first (as genotype() does for every structure
+    # the copy-number stage returns): the thresholds of this call are this structure's all the same
+    if rng.random() < 0.5:
+        other_cfgs = tables.cn_list(g, copies) + rng.choice([["1"], ["1", "1"]])
+        if rng.random() < 0.5 and len(other_cfgs) > 2:
+            other_cfgs = other_cfgs[:1]
+        try:
+            other_cn = CNSolution(g, 0, other_cfgs)
+            estimate_major(g, cb, other_cn, "any")
+            desc["evidence_used_before_for"] = other_cfgs
+        except Exception:
+            pass
     try:
         ma = estimate_major(g, ca, cn, "any")
         mb = estimate_major(g, cb, cn, "any")
